@@ -430,8 +430,145 @@ async fn run_case(c: &Case, rep: &mut Report) {
     live.shutdown();
 }
 
+/// Library-default transport on both sides: the peer fills `k` streams the application has
+/// accepted but does not read until the writer is blocked by flow control; streams opened
+/// afterwards, datagrams and a clean close must still get through.
+async fn unread_at_default_windows(writer_is_client: bool, bidi: bool, k: usize, rep: &mut Report) {
+    let ctx = format!("default-windows|unread|writer={}|{}|k={k}", if writer_is_client { "client" } else { "server" }, if bidi { "bi" } else { "uni" });
+    rep.eval(ctx.clone());
+    let pair = match crate::ends::pair_library_defaults().await {
+        Ok(p) => p,
+        Err(e) => return rep.inconclusive(format!("{ctx}: {e}")),
+    };
+    let (w, r) = if writer_is_client { (pair.cconn.clone(), pair.sconn.clone()) } else { (pair.sconn.clone(), pair.cconn.clone()) };
+    let hb = crate::util::Heartbeat::start();
+    let wit = |extra: String| J::obj([("case", J::s(ctx.clone())), ("detail", J::s(extra))]);
+    // the stalled streams: accepted, never read
+    let mut accepted: Vec<Box<dyn std::any::Any + Send>> = vec![];
+    let mut writers = vec![];
+    let mut filled = 0u64;
+    for _ in 0..k {
+        let chunk = vec![0x5au8; 64 * 1024];
+        if bidi {
+            let Waited::Done(Ok(Ok((mut s, sr)))) = within(Duration::from_secs(5), async { Ok::<_, String>(w.open_bi().await.map_err(|e| e.to_string())?.await.map_err(|e| e.to_string())) }).await else {
+                return rep.inconclusive(format!("{ctx}: open stalled stream"));
+            };
+            let _ = s.write_all(b"stalled").await;
+            match within(Duration::from_secs(5), r.accept_bi()).await {
+                Waited::Done(Ok(x)) => accepted.push(Box::new(x)),
+                _ => return rep.inconclusive(format!("{ctx}: accept stalled stream")),
+            }
+            // write until flow control stops us (no progress for 400 ms) or 16 MiB
+            while filled < 16 << 20 {
+                match within(ms(400), s.write_all(&chunk)).await {
+                    Waited::Done(Ok(())) => filled += chunk.len() as u64,
+                    _ => break,
+                }
+            }
+            writers.push((Some(s), Some(sr), None));
+        } else {
+            let Waited::Done(Ok(Ok(mut s))) = within(Duration::from_secs(5), async { Ok::<_, String>(w.open_uni().await.map_err(|e| e.to_string())?.await.map_err(|e| e.to_string())) }).await else {
+                return rep.inconclusive(format!("{ctx}: open stalled stream"));
+            };
+            let _ = s.write_all(b"stalled").await;
+            match within(Duration::from_secs(5), r.accept_uni()).await {
+                Waited::Done(Ok(x)) => accepted.push(Box::new(x)),
+                _ => return rep.inconclusive(format!("{ctx}: accept stalled stream")),
+            }
+            while filled < 16 << 20 {
+                match within(ms(400), s.write_all(&chunk)).await {
+                    Waited::Done(Ok(())) => filled += chunk.len() as u64,
+                    _ => break,
+                }
+            }
+            writers.push((None, None, Some(s)));
+        }
+    }
+    rep.max("default_windows_unread_bytes", filled);
+    if filled >= 16 << 20 {
+        // never blocked: the default windows are larger than what this scenario writes
+        rep.inconclusive(format!("{ctx}: writer never blocked within 16 MiB"));
+    }
+    let b0 = hb.beats();
+    // healthy traffic opened after the stall
+    let mut bad: Vec<String> = vec![];
+    let healthy = async {
+        let mut s = w.open_uni().await.map_err(|e| e.to_string())?.await.map_err(|e| e.to_string())?;
+        s.write_all(b"healthy-uni").await.map_err(|e| e.to_string())?;
+        s.finish().await.map_err(|e| e.to_string())?;
+        let (mut s2, _r2) = w.open_bi().await.map_err(|e| e.to_string())?.await.map_err(|e| e.to_string())?;
+        s2.write_all(b"healthy-bi").await.map_err(|e| e.to_string())?;
+        s2.finish().await.map_err(|e| e.to_string())?;
+        w.send_datagram(b"healthy-datagram").map_err(|e| e.to_string())?;
+        Ok::<(), String>(())
+    };
+    let receive = async {
+        let mut got = vec![];
+        let mut u = r.accept_uni().await.map_err(|e| format!("accept_uni: {e}"))?;
+        let mut buf = vec![0u8; 64];
+        let mut data = vec![];
+        while let Some(n) = u.read(&mut buf).await.map_err(|e| format!("read uni: {e:?}"))? {
+            data.extend_from_slice(&buf[..n]);
+        }
+        got.push(data);
+        let (_bs, mut b) = r.accept_bi().await.map_err(|e| format!("accept_bi: {e}"))?;
+        let mut data = vec![];
+        while let Some(n) = b.read(&mut buf).await.map_err(|e| format!("read bi: {e:?}"))? {
+            data.extend_from_slice(&buf[..n]);
+        }
+        got.push(data);
+        let d = r.receive_datagram().await.map_err(|e| format!("receive_datagram: {e}"))?;
+        got.push(d.payload().to_vec());
+        Ok::<_, String>(got)
+    };
+    let (hs, rc) = tokio::join!(within(Duration::from_secs(8), healthy), within(Duration::from_secs(8), receive));
+    let beats = hb.beats() - b0;
+    match (&hs, &rc) {
+        (Waited::Done(Ok(())), Waited::Done(Ok(got))) => {
+            if got != &vec![b"healthy-uni".to_vec(), b"healthy-bi".to_vec(), b"healthy-datagram".to_vec()] {
+                bad.push(format!("healthy traffic altered: {:?}", got.iter().map(|g| String::from_utf8_lossy(g).to_string()).collect::<Vec<_>>()));
+            }
+        }
+        (Waited::Done(Err(e)), _) => return rep.inconclusive(format!("{ctx}: healthy sender: {e}")),
+        (_, Waited::Done(Err(e))) => bad.push(format!("healthy receiver failed: {e}")),
+        _ => {
+            if beats < 400 {
+                return rep.inconclusive(format!("{ctx}: runtime heartbeat too slow ({beats}) to trust a stall"));
+            }
+            bad.push(format!("healthy streams / datagram opened after {k} unread stream(s) ({filled} unread bytes) not delivered within 8 s (sender done: {}, receiver done: {})", matches!(hs, Waited::Done(_)), matches!(rc, Waited::Done(_))));
+        }
+    }
+    for b in bad {
+        rep.violation(format!("C07|blocked|stall=UnreadData|stalled={}|victim=default-windows", if bidi { "bi" } else { "uni" }), b.clone(), wit(b));
+    }
+    // clean close still works
+    w.close(wtransport::VarInt::from_u32(7), b"done");
+    match within(Duration::from_secs(5), r.closed()).await {
+        Waited::Done(ConnectionError::ApplicationClosed(c)) if c.code().into_inner() == 7 => {}
+        other => rep.violation("C07|blocked|stall=UnreadData|victim=close", format!("close after unread streams reported {other:?}"), wit(String::new())),
+    }
+    drop(accepted);
+    drop(writers);
+}
+
 pub fn run(args: &Args) -> Report {
     let mut rep = Report::new();
+    for multi in [true, false] {
+        let rt = crate::runtime(multi, 4);
+        rt.block_on(async {
+            for writer_is_client in [true, false] {
+                for bidi in [false, true] {
+                    for k in if args.thorough { vec![1usize, 2, 5] } else { vec![1] } {
+                        if !args.thorough && (writer_is_client != bidi) == multi {
+                            continue;
+                        }
+                        unread_at_default_windows(writer_is_client, bidi, k, &mut rep).await;
+                    }
+                }
+            }
+        });
+        rt.shutdown_timeout(Duration::from_millis(100));
+    }
     let ks: &[usize] = if args.thorough { &[1, 2, 3, 4, 5, 8, 9, 16, 33] } else { &[1, 4, 5, 9, 17] };
     let roles: &[Role] = if args.thorough { &[Role::Server, Role::Client] } else { &[Role::Server, Role::Client] };
     let mut cases = vec![];
